@@ -1270,12 +1270,12 @@ pub fn harnesses() -> Vec<HarnessDef> {
     format!("{} operations from subscribe / unsubscribe / source event / connect over 3 subscribers; cold synchronous (<=2 items) and hot sources behind an upstream tap", if t { 7 } else { 6 })
   }
   add("c11_publish", vec!["C11"], "publish::<Subject>() + connect()", b11, Box::new(|t| c11_history(ShareKind::PublishLocal, if t { 7 } else { 6 })), 2_000_000, 30_000_000, true);
-  add("c11_share", vec!["C11"], "share()", b11, Box::new(|t| c11_history(ShareKind::ShareLocal, if t { 7 } else { 6 })), 2_000_000, 30_000_000, true);
+  add("c11_share", vec!["C11", "C01"], "share()", b11, Box::new(|t| c11_history(ShareKind::ShareLocal, if t { 7 } else { 6 })), 2_000_000, 30_000_000, true);
   add("c11_share_threads", vec!["C11"], "share_threads()", b11, Box::new(|t| c11_history(ShareKind::ShareThreads, if t { 7 } else { 6 })), 2_000_000, 30_000_000, true);
   fn b20(t: bool) -> String {
     format!("scripts of <= {} symbolic items x 3 terminals; key functions constant / identity / mod 2 / mod 3; hot and cold source; a probe per announced group, one on the outer stream, one on flat_map(groups)", if t { 5 } else { 4 })
   }
-  add("c20_group_by", vec!["C20"], "group_by over Subject: group announcement order, per-group logs, terminal fan-out, flatten-back, all decided by z3 on symbolic keys", b20, Box::new(|t| c20_group_by(if t { 5 } else { 4 }, false)), 2_000_000, 30_000_000, false);
+  add("c20_group_by", vec!["C20", "C01"], "group_by over Subject: group announcement order, per-group logs, terminal fan-out, flatten-back, all decided by z3 on symbolic keys", b20, Box::new(|t| c20_group_by(if t { 5 } else { 4 }, false)), 2_000_000, 30_000_000, false);
   add("c20_group_by_threads", vec!["C20"], "group_by over SubjectThreads", b20, Box::new(|t| c20_group_by(if t { 5 } else { 4 }, true)), 2_000_000, 30_000_000, false);
   fn b5(t: bool) -> String {
     format!("{} steps over the outer (emit next inner / complete / error) and every subscribed hot inner (item / complete / error); {} inners, each hot or cold-synchronous (<=2 symbolic items, complete or error); merge_all(1..=k+1), concat_all, flatten, flat_map, concat_map", if t { 7 } else { 6 }, 3)
